@@ -345,10 +345,13 @@ func (self Reflect) listMap(v reflect.Value) node.Node {
 				item = self.create(e, nil)
 				keyVal := reflect.ValueOf(key[0].Value())
 				v.SetMapIndex(keyVal, item)
+				// the rows have changed
+				keys = nil
 			} else if key != nil {
 				keyVal := reflect.ValueOf(key[0].Value())
 				if r.Delete {
 					v.SetMapIndex(keyVal, reflect.ValueOf(nil))
+					keys = nil
 					return nil, nil, nil
 				}
 				item = v.MapIndex(keyVal)
